@@ -88,9 +88,10 @@ pub open spec fn mdia_at(d: Seq<u8>, q: int, size: u64, b: MdiaBox) -> bool {
 pub open spec fn rel_mdia(d: Seq<u8>, x: Option<MdiaBox>, g: Option<int>) -> bool {
     (x is Some <==> g is Some) && (x matches Some(b) ==> mdia_at(d, child_q(d, g->Some_0), child_size(d, g->Some_0), b))
 }
+pub open spec fn rel_edts(d: Seq<u8>, x: Option<EdtsBox>, g: Option<int>) -> bool { (x is Some <==> g is Some) && (x matches Some(b) ==> edts_at(d, child_q(d, g->Some_0), b)) }
 pub open spec fn trak_at(d: Seq<u8>, q: int, size: u64, b: TrakBox) -> bool {
     &&& rel_tkhd(d, Some(b.tkhd), child_at_m(d, q, size, BoxType::TkhdBox))
-    &&& rel_some(b.edts, child_at_m(d, q, size, BoxType::EdtsBox))
+    &&& rel_edts(d, b.edts, child_at_m(d, q, size, BoxType::EdtsBox))
     &&& rel_some(b.meta, child_at_m(d, q, size, BoxType::MetaBox))
     &&& rel_mdia(d, Some(b.mdia), child_at_m(d, q, size, BoxType::MdiaBox))
 }
